@@ -63,29 +63,69 @@ func isStub(fn *ssa.Function, errG *ssa.Global) bool {
 		for _, in := range b.Instrs {
 			switch in := in.(type) {
 			case *ssa.Panic:
-				v := in.X
-				for {
-					switch w := v.(type) {
-					case *ssa.MakeInterface:
-						v = w.X
-						continue
-					case *ssa.ChangeInterface:
-						v = w.X
-						continue
-					}
-					break
-				}
-				u, ok := v.(*ssa.UnOp)
-				if !ok || u.Op != token.MUL || u.X != ssa.Value(errG) {
+				if !isErrValue(in.X, errG, 0) {
 					return false
 				}
 				sawPanic = true
-			case *ssa.Return, ssa.CallInstruction, *ssa.Store:
+			case ssa.CallInstruction:
+				// only a call of an accessor of the error value (its result is
+				// checked at the panic)
+				if c := in.Common().StaticCallee(); c == nil || !isErrAccessor(c, errG, 0) {
+					return false
+				}
+			case *ssa.Return, *ssa.Store:
 				return false
 			}
 		}
 	}
 	return sawPanic
+}
+
+// isErrValue reports whether v is the value of the package-level error errG:
+// a load of it, possibly converted to an interface, or the result of a
+// function that does nothing but return it.
+func isErrValue(v ssa.Value, errG *ssa.Global, depth int) bool {
+	for {
+		switch w := v.(type) {
+		case *ssa.MakeInterface:
+			v = w.X
+			continue
+		case *ssa.ChangeInterface:
+			v = w.X
+			continue
+		}
+		break
+	}
+	switch w := v.(type) {
+	case *ssa.UnOp:
+		return w.Op == token.MUL && w.X == ssa.Value(errG)
+	case *ssa.Call:
+		c := w.Call.StaticCallee()
+		return c != nil && isErrAccessor(c, errG, depth)
+	}
+	return false
+}
+
+// isErrAccessor: a parameterless straight-line function of the same package
+// whose only effect is to return the error value.
+func isErrAccessor(fn *ssa.Function, errG *ssa.Global, depth int) bool {
+	if depth > 2 || len(fn.Blocks) != 1 || len(fn.Params) != 0 || fn.Pkg != errG.Pkg {
+		return false
+	}
+	var ret *ssa.Return
+	for _, in := range fn.Blocks[0].Instrs {
+		switch in := in.(type) {
+		case *ssa.Return:
+			ret = in
+		case *ssa.Store, *ssa.Panic, *ssa.Go, *ssa.Defer:
+			return false
+		case ssa.CallInstruction:
+			if c := in.Common().StaticCallee(); c == nil || !isErrAccessor(c, errG, depth+1) {
+				return false
+			}
+		}
+	}
+	return ret != nil && len(ret.Results) == 1 && isErrValue(ret.Results[0], errG, depth+1)
 }
 
 // flagTest normalises an If condition to a test of the dispatch flag.  It
@@ -97,52 +137,101 @@ func isStub(fn *ssa.Function, errG *ssa.Global) bool {
 // and the flag-true successor is the one constant pruning removes — in these
 // configurations the rule is "calls into V occur only in pruned code".
 func flagTest(cond ssa.Value, flagG *ssa.Global) (trueSucc int, ok bool) {
-	if flagG == nil {
-		c, isC := load.FoldConst(cond)
-		if !isC || c.Kind() != constant.Bool {
-			return 0, false
-		}
-		if constant.BoolVal(c) {
-			return 1, true // condition is constantly true: the dead side is the false successor
-		}
-		return 0, true
-	}
-	pol := true // condition true <=> flag == pol
-	for {
-		switch c := cond.(type) {
-		case *ssa.UnOp:
-			if c.Op == token.NOT {
-				pol = !pol
-				cond = c.X
-				continue
-			}
-			if c.Op == token.MUL && c.X == ssa.Value(flagG) {
-				if pol {
-					return 0, true
-				}
-				return 1, true
-			}
-			return 0, false
-		case *ssa.BinOp:
-			if c.Op != token.EQL && c.Op != token.NEQ {
-				return 0, false
-			}
-			x, y := c.X, c.Y
-			if _, isC := x.(*ssa.Const); isC {
-				x, y = y, x
-			}
-			k, isC := y.(*ssa.Const)
-			if !isC || k.Value == nil || k.Value.Kind() != constant.Bool {
-				return 0, false
-			}
-			if constant.BoolVal(k.Value) != (c.Op == token.EQL) {
-				pol = !pol
-			}
-			cond = x
-			continue
-		}
+	return flagTestAt(cond, flagG, nil)
+}
+
+// flagTestAt is flagTest for the condition of the If that ends block at (nil:
+// unknown).  Besides the direct forms it accepts, as a behaviour-preserving
+// spelling of the same test,
+//
+//   - a call of a straight-line, parameterless function of package curve that
+//     returns a test of the flag (an accessor such as useVectorBackend()),
+//   - on amd64, the very value that a dominating store in the same function
+//     has just written to the flag (`ok := detect(); flag = ok; if ok { ... }`).
+func flagTestAt(cond ssa.Value, flagG *ssa.Global, at *ssa.BasicBlock) (trueSucc int, ok bool) {
+	pol, ok := flagPolarity(cond, flagG, at, 0)
+	if !ok {
 		return 0, false
 	}
+	if pol {
+		return 0, true
+	}
+	return 1, true
+}
+
+// flagPolarity resolves v to "v == (flag == pol)".  In the generic
+// configurations (flagG == nil) the flag is the constant false: a condition
+// that folds to the constant c is reported as pol = !c, so that the flag-true
+// successor is the one constant pruning removes.
+func flagPolarity(v ssa.Value, flagG *ssa.Global, at *ssa.BasicBlock, depth int) (pol, ok bool) {
+	if depth > 4 {
+		return false, false
+	}
+	if flagG == nil {
+		if c, isC := load.FoldConst(v); isC && c.Kind() == constant.Bool {
+			return !constant.BoolVal(c), true
+		}
+	}
+	switch c := v.(type) {
+	case *ssa.UnOp:
+		switch {
+		case c.Op == token.NOT:
+			p, ok := flagPolarity(c.X, flagG, at, depth+1)
+			return !p, ok
+		case c.Op == token.MUL && flagG != nil && c.X == ssa.Value(flagG):
+			return true, true
+		}
+	case *ssa.BinOp:
+		if c.Op != token.EQL && c.Op != token.NEQ {
+			return false, false
+		}
+		x, y := c.X, c.Y
+		if _, isC := x.(*ssa.Const); isC {
+			x, y = y, x
+		}
+		k, isC := y.(*ssa.Const)
+		if !isC || k.Value == nil || k.Value.Kind() != constant.Bool {
+			return false, false
+		}
+		p, ok := flagPolarity(x, flagG, at, depth+1)
+		if constant.BoolVal(k.Value) != (c.Op == token.EQL) {
+			p = !p
+		}
+		return p, ok
+	case *ssa.Call:
+		g := c.Call.StaticCallee()
+		if g == nil || len(g.Blocks) != 1 || len(g.Params) != 0 || len(g.FreeVars) != 0 || g.Pkg == nil || load.Rel(g.Pkg.Pkg) != curveRel {
+			return false, false
+		}
+		var ret *ssa.Return
+		for _, in := range g.Blocks[0].Instrs {
+			switch in := in.(type) {
+			case *ssa.Return:
+				ret = in
+			case *ssa.Store, ssa.CallInstruction, *ssa.Panic:
+				return false, false
+			}
+		}
+		if ret == nil || len(ret.Results) != 1 {
+			return false, false
+		}
+		return flagPolarity(ret.Results[0], flagG, nil, depth+1)
+	}
+	// the value just stored into the flag by this function
+	if flagG != nil && at != nil {
+		var stores []*ssa.Store
+		for _, b := range at.Parent().Blocks {
+			for _, in := range b.Instrs {
+				if st, isSt := in.(*ssa.Store); isSt && st.Addr == ssa.Value(flagG) {
+					stores = append(stores, st)
+				}
+			}
+		}
+		if len(stores) == 1 && stores[0].Val == v && (stores[0].Block() == at || stores[0].Block().Dominates(at)) {
+			return true, true
+		}
+	}
+	return false, false
 }
 
 // CheckDispatch decides the dispatch rule of DESIGN E-SIB in configuration p.
@@ -229,11 +318,105 @@ func CheckDispatch(run *report.Run, p *load.Program, generic *load.Program, rule
 		run.Fatal("E-SIB dispatch: anchor %s.%s not found in configuration %s", curveRel, flagName, p.Cfg.ID)
 		return res
 	}
+	// --- guards: the tests of the flag in every function ----------------------------
+	guardCache := map[*ssa.Function][]*guard{}
+	guardsFor := func(fn *ssa.Function) []*guard {
+		if gs, ok := guardCache[fn]; ok {
+			return gs
+		}
+		var guards []*guard
+		for _, b := range fn.Blocks {
+			if len(b.Instrs) == 0 {
+				continue
+			}
+			ifi, ok := b.Instrs[len(b.Instrs)-1].(*ssa.If)
+			if !ok {
+				continue
+			}
+			ts, ok := flagTestAt(ifi.Cond, flagG, b)
+			if !ok {
+				continue
+			}
+			g := &guard{fn: fn, blk: b}
+			if s := b.Succs[ts]; len(s.Preds) == 1 && s != b.Succs[1-ts] {
+				g.t = s
+			}
+			if s := b.Succs[1-ts]; len(s.Preds) == 1 && s != b.Succs[ts] {
+				g.f = s
+			}
+			guards = append(guards, g)
+		}
+		guardCache[fn] = guards
+		return guards
+	}
+	// guardOf returns the innermost guard whose flag-true region contains the
+	// instruction.  An anonymous function that is only ever called, and only
+	// inside the flag-true region of its parent, inherits the parent's guard
+	// (`if flag { return func() T { return vec() }() }`).
+	var guardOf func(in ssa.Instruction, depth int) *guard
+	guardOf = func(in ssa.Instruction, depth int) *guard {
+		fn := in.Parent()
+		var g *guard
+		for _, c := range guardsFor(fn) {
+			if c.t != nil && c.t.Dominates(in.Block()) {
+				g = c
+			}
+		}
+		if g != nil || fn.Parent() == nil || depth > 3 {
+			return g
+		}
+		var common *guard
+		sites := 0
+		for _, b := range fn.Parent().Blocks {
+			for _, pin := range b.Instrs {
+				uses := false
+				for _, op := range pin.Operands(nil) {
+					if op != nil && *op == ssa.Value(fn) {
+						uses = true
+					}
+				}
+				if !uses {
+					continue
+				}
+				sites++
+				switch pin := pin.(type) {
+				case *ssa.MakeClosure:
+					if pin.Referrers() == nil {
+						return nil
+					}
+					for _, ref := range *pin.Referrers() {
+						ci, isCall := ref.(ssa.CallInstruction)
+						if !isCall || ci.Common().Value != ssa.Value(pin) {
+							return nil // the closure value escapes
+						}
+					}
+				case ssa.CallInstruction:
+					if pin.Common().Value != ssa.Value(fn) {
+						return nil
+					}
+				default:
+					return nil
+				}
+				pg := guardOf(pin, depth+1)
+				if pg == nil || (common != nil && common != pg) {
+					return nil
+				}
+				common = pg
+			}
+		}
+		if sites == 0 {
+			return nil
+		}
+		return common
+	}
+
 	// --- closure ----------------------------------------------------------------
 	// A function joins V when every live returning path calls a member of V,
-	// unless it belongs to the public API or is an initialiser (those must
-	// work in every configuration, so an unguarded call of vector code in them
-	// — or in a helper they call unguarded — is reported, not absorbed).
+	// or when it calls a member of V and is itself only ever called from V or
+	// from the flag-true region of a guard (a helper extracted from vector
+	// code) — unless it belongs to the public API or is an initialiser (those
+	// must work in every configuration, so an unguarded call of vector code in
+	// them — or in a helper they call unguarded — is reported, not absorbed).
 	// why[f] remembers the call that made f vector-only, for the diagnosis.
 	type reason struct {
 		callee *ssa.Function
@@ -241,13 +424,65 @@ func CheckDispatch(run *report.Run, p *load.Program, generic *load.Program, rule
 	}
 	why := map[*ssa.Function]reason{}
 	inV := func(fn *ssa.Function) bool { return fn != nil && V[topLevel(fn)] }
+	callSites := map[*ssa.Function][]ssa.Instruction{}
+	addrTaken := map[*ssa.Function]bool{}
+	for _, fn := range funcs {
+		for _, b := range fn.Blocks {
+			for _, in := range b.Instrs {
+				ci, isCall := in.(ssa.CallInstruction)
+				for _, op := range in.Operands(nil) {
+					if op == nil || *op == nil {
+						continue
+					}
+					f, isF := (*op).(*ssa.Function)
+					if !isF {
+						continue
+					}
+					if isCall && ci.Common().Value == ssa.Value(f) {
+						callSites[f] = append(callSites[f], in)
+						for _, a := range ci.Common().Args {
+							if a == ssa.Value(f) {
+								addrTaken[f] = true
+							}
+						}
+					} else {
+						addrTaken[f] = true
+					}
+				}
+			}
+		}
+	}
+	onlyReachedFromVector := func(fn *ssa.Function) bool {
+		if addrTaken[fn] || len(callSites[fn]) == 0 {
+			return false
+		}
+		for _, site := range callSites[fn] {
+			if site.Parent() == fn || inV(site.Parent()) {
+				continue
+			}
+			if guardOf(site, 0) == nil {
+				return false
+			}
+		}
+		return true
+	}
+	callsV := func(fn *ssa.Function) bool {
+		for _, b := range fn.Blocks {
+			for _, in := range b.Instrs {
+				if c := staticCallee(in); c != nil && c != fn && inV(c) {
+					return true
+				}
+			}
+		}
+		return false
+	}
 	for changed := true; changed; {
 		changed = false
 		for _, fn := range funcs {
 			if fn.Parent() != nil || V[fn] || len(fn.Blocks) == 0 || fn.Synthetic != "" || isPublicAPI(fn) || fn.Name() == "init" {
 				continue
 			}
-			if allPathsCall(fn, inV) {
+			if allPathsCall(fn, inV) || (callsV(fn) && onlyReachedFromVector(fn)) {
 				V[fn] = true
 				changed = true
 				for _, b := range fn.Blocks {
@@ -267,43 +502,12 @@ func CheckDispatch(run *report.Run, p *load.Program, generic *load.Program, rule
 	}
 	sort.Strings(res.VectorOnly)
 
-	// --- edges and guards ----------------------------------------------------
+	// --- edges ------------------------------------------------------------------
 	for _, fn := range funcs {
 		if inV(fn) || len(fn.Blocks) == 0 {
 			continue
 		}
-		live := load.LiveBlocks(fn)
-		// guards of this function
-		type guard struct {
-			blk     *ssa.BasicBlock
-			t, f    *ssa.BasicBlock // flag-true / flag-false successor (nil when shared with other predecessors)
-			vec     []*ssa.Function
-			vecPos  token.Pos
-			gen     []*ssa.Function
-			hasEdge bool
-		}
-		var guards []*guard
-		for _, b := range fn.Blocks {
-			if len(b.Instrs) == 0 {
-				continue
-			}
-			ifi, ok := b.Instrs[len(b.Instrs)-1].(*ssa.If)
-			if !ok {
-				continue
-			}
-			ts, ok := flagTest(ifi.Cond, flagG)
-			if !ok {
-				continue
-			}
-			g := &guard{blk: b}
-			if s := b.Succs[ts]; len(s.Preds) == 1 && s != b.Succs[1-ts] {
-				g.t = s
-			}
-			if s := b.Succs[1-ts]; len(s.Preds) == 1 && s != b.Succs[ts] {
-				g.f = s
-			}
-			guards = append(guards, g)
-		}
+		guards := guardsFor(fn)
 		for _, b := range fn.Blocks {
 			for _, in := range b.Instrs {
 				// function values of V members must not leak out of V
@@ -321,67 +525,160 @@ func CheckDispatch(run *report.Run, p *load.Program, generic *load.Program, rule
 				if callee == nil {
 					continue
 				}
-				var g *guard
-				for _, c := range guards {
-					if c.t != nil && c.t.Dominates(b) {
-						g = c
-					}
-				}
 				if !inV(callee) {
-					// a sibling candidate on the flag-false side
 					if load.IsModule(pkgOf(callee)) && callee.Parent() == nil {
 						for _, c := range guards {
+							// a sibling candidate on the flag-false side
 							if c.f != nil && c.f.Dominates(b) {
 								c.gen = append(c.gen, callee)
+							}
+							// an ordinary call on the flag-true side
+							if c.t != nil && c.t.Dominates(b) {
+								c.tcalls = append(c.tcalls, callee)
 							}
 						}
 					}
 					continue
 				}
+				g := guardOf(in, 0)
 				res.Edges++
 				construct := funcKey(fn) + " -> " + funcKey(callee)
-				switch {
-				case g == nil:
+				if g == nil {
 					msg := sprintf("call into the vector-only set is not dominated by the true edge of a test of %s", flagName)
 					if r, ok := why[topLevel(callee)]; ok {
 						msg += sprintf("; %s counts as vector-only because every path through it calls %s (%s)", funcKey(callee), funcKey(r.callee), p.Pos(r.pos))
 					}
 					ru.Failf(p.Pos(in.Pos()), construct, "%s", msg)
-				case flagG == nil && live[b]:
-					ru.Failf(p.Pos(in.Pos()), construct, "call into the vector-only set is live in configuration %s although %s is the constant false", p.Cfg.ID, flagName)
-				default:
-					ru.OK(construct)
-					g.hasEdge = true
-					g.vec = append(g.vec, callee)
-					if !g.vecPos.IsValid() {
-						g.vecPos = in.Pos()
-					}
+					continue
+				}
+				// (in a generic configuration the flag-true region of a resolved
+				// test is exactly the code constant pruning removes)
+				ru.OK(construct)
+				g.hasEdge = true
+				g.vec = append(g.vec, callee)
+				if !g.vecPos.IsValid() {
+					g.vecPos = in.Pos()
 				}
 			}
 		}
-		for _, g := range guards {
+	}
+	// --- switches: pair every vector routine with a sibling of the false side ----
+	for _, fn := range funcs {
+		for _, g := range guardCache[fn] {
 			if !g.hasEdge {
 				continue
 			}
 			res.Guards++
-			if len(g.gen) == 0 {
+			// calls made on both sides (a common tail moved into the branches, a
+			// shared helper) are not siblings
+			var gen []*ssa.Function
+			for _, c := range g.gen {
+				shared := false
+				for _, t := range g.tcalls {
+					if t == c {
+						shared = true
+					}
+				}
+				if !shared {
+					gen = append(gen, c)
+				}
+			}
+			if len(gen) == 0 {
 				// guard without sibling (package init builds the vector tables)
 				continue
 			}
 			res.Switches++
 			name := funcKey(fn)
-			if len(g.gen) != len(g.vec) {
-				ru.Failf(p.Pos(g.vecPos), name, "dispatch switch calls %d vector-only routines on the true edge but %d siblings on the false edge; cannot pair them", len(g.vec), len(g.gen))
+			used := make([]bool, len(gen))
+			okAll := true
+			var pairs []Pair
+			for i, v := range g.vec {
+				k := -1
+				if len(gen) == len(g.vec) && siblingShape(v, gen[i]) {
+					k = i
+				} else {
+					for j, c := range gen {
+						if !used[j] && siblingShape(v, c) {
+							k = j
+							break
+						}
+					}
+				}
+				if k < 0 {
+					ru.Failf(p.Pos(g.vecPos), name, "dispatch switch calls the vector-only routine %s on the true edge but no sibling of the same shape on the false edge (%d candidates); cannot pair them", funcKey(v), len(gen))
+					okAll = false
+					break
+				}
+				used[k] = true
+				pairs = append(pairs, Pair{Dispatcher: name, Pos: p.Pos(g.vecPos), Vector: funcKey(v), Generic: funcKey(gen[k])})
+			}
+			if !okAll {
 				continue
 			}
 			ru.OK("switch " + name)
-			for i := range g.vec {
-				res.Pairs = append(res.Pairs, Pair{Dispatcher: name, Pos: p.Pos(g.vecPos), Vector: funcKey(g.vec[i]), Generic: funcKey(g.gen[i])})
-			}
+			res.Pairs = append(res.Pairs, pairs...)
 		}
 	}
 	sort.SliceStable(res.Pairs, func(i, j int) bool { return res.Pairs[i].Dispatcher < res.Pairs[j].Dispatcher })
 	return res
+}
+
+// guard is one test of the dispatch flag.
+type guard struct {
+	fn      *ssa.Function
+	blk     *ssa.BasicBlock
+	t, f    *ssa.BasicBlock // flag-true / flag-false successor (nil when shared with other predecessors)
+	vec     []*ssa.Function // members of V called in the flag-true region
+	vecPos  token.Pos
+	gen     []*ssa.Function // module functions called in the flag-false region
+	tcalls  []*ssa.Function // module functions outside V called in the flag-true region
+	hasEdge bool
+}
+
+// siblingShape reports whether g can be the generic sibling of the vector
+// routine v: same arity, and every parameter / result has the identical type
+// or both are (pointers to) named types of package curve (the two back ends
+// use different point and table representations).
+func siblingShape(v, g *ssa.Function) bool {
+	sv, sg := v.Signature, g.Signature
+	if (sv.Recv() == nil) != (sg.Recv() == nil) {
+		return false
+	}
+	if sv.Recv() != nil && !shapeType(sv.Recv().Type(), sg.Recv().Type()) {
+		return false
+	}
+	if sv.Params().Len() != sg.Params().Len() || sv.Results().Len() != sg.Results().Len() {
+		return false
+	}
+	for i := 0; i < sv.Params().Len(); i++ {
+		if !shapeType(sv.Params().At(i).Type(), sg.Params().At(i).Type()) {
+			return false
+		}
+	}
+	for i := 0; i < sv.Results().Len(); i++ {
+		if !shapeType(sv.Results().At(i).Type(), sg.Results().At(i).Type()) {
+			return false
+		}
+	}
+	return true
+}
+
+func shapeType(a, b types.Type) bool {
+	if types.Identical(a, b) {
+		return true
+	}
+	_, pa := a.(*types.Pointer)
+	_, pb := b.(*types.Pointer)
+	if pa != pb {
+		return false
+	}
+	if sa, ok := a.Underlying().(*types.Slice); ok {
+		sb, ok := b.Underlying().(*types.Slice)
+		return ok && shapeType(sa.Elem(), sb.Elem())
+	}
+	na, nb := namedOf(a), namedOf(b)
+	return na != nil && nb != nil && na.Obj().Pkg() != nil && nb.Obj().Pkg() != nil &&
+		load.Rel(na.Obj().Pkg()) == curveRel && load.Rel(nb.Obj().Pkg()) == curveRel
 }
 
 // isPublicAPI reports whether fn is an exported function or an exported
